@@ -108,6 +108,11 @@ def asfOp (a : Args) : String :=
     | .error e => s!"err-load {e.name}"
     | .ok objs =>
       showResult (saveM (a.nat "B" 1048576) objs (asfTagsOf (a.str "tags" "-")) (padOf a) (envOf a) { data := a.bytes "data", pos := a.nat "pos" 0 })
+  -- ASF(fileobj) as a program on the file object in a fault environment: outcome, bytes, position, call log and
+  -- (on success) the object tree with the tags it loads
+  | "loadm" =>
+    showResult (loadM (envOf a) { data := a.bytes "data", pos := a.nat "pos" 0 })
+      (fun objs => s!"objs={asfJoinOr (objs.map asfObjStr)} tags={asfTagsStr (loadedTags objs)}")
   | "deletem" =>
     match parseFull (a.bytes "data") with
     | .error e => s!"err-load {e.name}"
